@@ -15,7 +15,7 @@ has_attr = z3.Function("has_attr", I, S, B)          # capability of an abstract
 accepts_kw = z3.Function("accepts_kw", I, S, S, B)   # target's method accepts that keyword
 
 SORTS = {"val": Val, "int": I, "bool": B, "str": S, "seq": SeqV, "set": SetMap, "map": KwMap, "hist": Hist, "event": Event, "ref": I,
-         "harr": so.HistArr, "darr": so.DictArr}
+         "harr": so.HistArr, "darr": so.DictArr, "farr": z3.ArraySort(I, Val)}
 
 BUILTIN_KIND_TAGS = ("list", "set", "frozenset", "anyset", "ftuple", "dict", "str", "bytes", "tuple", "int", "bool", "none", "seq", "iter")
 
@@ -179,6 +179,13 @@ class Calls(Interp):
     def read_field(self, ref, attr, tag, node, default=None):
         if tag is not None and tag.startswith("static:"):
             return self.static_field(ref, attr, tag[7:], node)
+        if tag is not None and tag.startswith("const:"):
+            # an attribute that is a fixed function of the object (never reassigned): const:<spec function>:<tag of the value>
+            _, fn, inner = tag.split(":", 2)
+            v = self.spec_call(fn, [SV(Val.ref(ref), None)], {}, node)
+            if isinstance(v, PSeq):
+                return SV(Val.tup(v.seq), inner)
+            return SV(self.to_term(v, node), inner)
         t = self.get_field(ref, attr)
         maybe = False
         if tag is not None and tag.startswith("maybe "):
@@ -1955,7 +1962,7 @@ class Calls(Interp):
             return v.e
         if s == "ref":
             return self.refof(v, node)
-        if s in ("harr", "darr"):
+        if s in ("harr", "darr", "farr"):
             return v.t
         raise SpecError("sort %s" % s)
 
@@ -1980,7 +1987,7 @@ class Calls(Interp):
             return PEvent(t)
         if s == "ref":
             return SV(Val.ref(t), None)
-        if s in ("harr", "darr"):
+        if s in ("harr", "darr", "farr"):
             return PRaw(t)
         raise SpecError("sort %s" % s)
 
@@ -2106,6 +2113,14 @@ class Calls(Interp):
         """truthiness of an object that is not a builtin container (what bool(obj) gives through __bool__/__len__/default)"""
         from .symex import so_truthy_obj
         return BoolSV(so_truthy_obj(self.refof(args[0], node)))
+
+    def sp_FIELD(self, args, kwargs, node):
+        """FIELD('name'): the whole heap component of that field (object -> value), e.g. to pass to a recursive spec function"""
+        return PRaw(self.comp("f:" + self.const_str(args[0], node)))
+
+    def sp_fsel(self, args, kwargs, node):
+        """fsel(A, obj): obj's value in the field array A"""
+        return SV(args[0].t[self.refof(args[1], node)], None)
 
     def sp_has_local(self, args, kwargs, node):
         """the verified function's local variable is bound at this point (static)"""
